@@ -264,7 +264,7 @@ ConnMade(x0) ==
   \* Noise: connection_made writes the client hello; on a socket that was closed under the
   \* transport the send fails and asyncio force-closes the transport
   IF x.cfg.noise /\ x.sock # "open"
-  THEN [x EXCEPT !.cm = FALSE, !.tr = "closed", !.lost = "reset",
+  THEN [x EXCEPT !.cm = FALSE, !.tr = "closed", !.lost = "oserr",
                  !.fi.wake = IF x.fi.pc = "create" /\ @ # "Cancelled" THEN "ok" ELSE @]
   ELSE
   [x EXCEPT !.cm = FALSE,
@@ -387,16 +387,23 @@ EnvEof(x0) ==
                       "SocketClosedAPIError")
        IN [y EXCEPT !.tr = "closed"]        \* eof_received returns False: transport closes
 
-\* recv() fails: transport force-closed now, connection_lost(exc) one iteration later
-EnvReset(x0) ==
+\* recv() fails: transport force-closed now, connection_lost(exc) one iteration later.
+\* f: what it failed with - "reset" (ConnectionResetError), "timedout" (ETIMEDOUT: the builtin TimeoutError, which is
+\* also what asyncio's time-outs raise), "oserr" (any other OSError)
+EnvReset(x0, f) ==
   LET x == Begin(x0) IN
-  IF x.tr # "open" \/ x.cm THEN x ELSE [x EXCEPT !.tr = "closed", !.lost = "reset"]
+  IF x.tr # "open" \/ x.cm THEN x ELSE [x EXCEPT !.tr = "closed", !.lost = f]
 
+\* A loss before the device's hello under Noise: the helper turns a reset into a handshake error (the connection's
+\* fatal cause); any other error stays raw, and the phase waiting for readiness reports it as a handshake error -
+\* except ETIMEDOUT, which it takes for its own time-out (deviation of the code, kept: the class is one of the hierarchy)
 ConnLost(x0) ==
   LET x == Begin(x0)
-      cls == IF x.cfg.noise /\ x.fh = "made" THEN "HandshakeAPIError" ELSE "RAW"
+      early == x.cfg.noise /\ x.fh = "made"
+      cls == IF early /\ x.lost = "reset" THEN "HandshakeAPIError" ELSE "RAW"
+      forphase == IF x.lost = "timedout" THEN "TimeoutAPIError" ELSE "HandshakeAPIError"
       y == [x EXCEPT !.lost = "none",
-                     !.fi.wake = IF x.fi.pc = "ready" /\ x.fh = "made" /\ @ # "Cancelled" THEN cls ELSE @]
+                     !.fi.wake = IF x.fi.pc = "ready" /\ x.fh = "made" /\ @ # "Cancelled" THEN forphase ELSE @]
   IN Fatal(y, cls)
 
 \* --------------------------------------------------------------- calls
